@@ -68,6 +68,70 @@ def task_primitive(which: str, rank: int, dtype: str, timeout: float) -> List[Di
     return discharge("C02", f"scale_{which}[rank={rank},{dtype}]", h_primitive(which, rank, dtype), replay_primitive, timeout)
 
 
+HISTORY = ("int64", "bfloat16", "float16", "float32", "float64")
+HDT = {"int64": torch.int64, **{k: fo.DT[k] for k in HISTORY[1:]}}
+
+
+def h_history(which: str):
+    """One process, one concrete factor, the primitive applied to tensors of dtypes of increasing precision (an integer tensor first):
+    each call must still scale by exactly that factor, and no factor stored for an earlier call may reach a later gradient."""
+    def h(c: Ctx) -> None:
+        from unit_scaling.scale import scale_bwd, scale_fwd
+        from ..sym.tensor import Mode
+        mk = fo.SymMk(c)
+        s = 0.3
+        with Session():
+            for dt in HISTORY:
+                info = {"which": which, "history": True, "dtype": dt}
+                x = STensor.leaf(f"x_{dt}", tuple(fo._lead(mk, 2)), HDT[dt], requires_grad=HDT[dt].is_floating_point)
+                y = (scale_fwd if which == "fwd" else scale_bwd)(x, s)
+                if not HDT[dt].is_floating_point:
+                    continue
+                G = STensor.leaf(f"G_{dt}", y.shape, y.dtype)
+                y.backward(G)
+                g = x.grad
+                ok_b = g is not None and len(g) == 1 and g[0][1].key == G.lc[0][1].key
+                want_b = z3.RealVal(1) if which == "fwd" else fo_q(s)
+                c.oblige(f"{dt} after lower precisions: gradient = factor * upstream", g[0][0] == want_b if ok_b else z3.BoolVal(False), info={**info, "claim": "b"})
+            ev = sorted(set(Mode.events))
+            c.oblige("every factor is carried in the precision of the tensor it multiplies (none stored for an earlier call, in another dtype, is reused)",
+                     z3.BoolVal(not ev), info={"which": which, "history": True, "mismatch": "; ".join(ev)})
+
+    return h
+
+
+def fo_q(x: float) -> Any:
+    from fractions import Fraction
+    f = Fraction(x)
+    return z3.Q(f.numerator, f.denominator)
+
+
+def replay_history(obname: str, model: Dict[str, Any], info: Any) -> Tuple[bool, str]:
+    from unit_scaling.scale import scale_bwd, scale_fwd
+    s, which = 0.3, info["which"]
+    fn = scale_fwd if which == "fwd" else scale_bwd
+    gen = torch.Generator().manual_seed(0)
+    bad = []
+    for dt in HISTORY:
+        if dt == "int64":
+            fn(torch.arange(6).reshape(2, 3), s)
+            continue
+        x = torch.randn(2, 3, generator=gen, dtype=torch.float64).to(HDT[dt]).requires_grad_(True)
+        y = fn(x, s)
+        g = torch.randn(2, 3, generator=gen, dtype=torch.float64).to(HDT[dt])
+        (gx,) = torch.autograd.grad(y, x, g)
+        want = (g.double() * (1.0 if which == "fwd" else s)).to(HDT[dt])  # the factor applied in the tensor's own precision
+        if not torch.allclose(gx.double(), want.double(), rtol=4 * torch.finfo(HDT[dt]).eps, atol=0):
+            bad.append(f"{dt}: gradient is not {s if which != 'fwd' else 1.0} * upstream to {dt} rounding (max rel err "
+                       f"{((gx.double() - want.double()).abs().max() / want.double().abs().max()).item():.3g})")
+    return bool(bad), f"scale_{which}(x, {s}) on dtypes in the order {HISTORY}: " + "; ".join(bad or ["exact in every dtype"])
+
+
+def task_history(which: str, timeout: float) -> List[Dict[str, Any]]:
+    torch.set_num_threads(1)
+    return discharge("C02", f"scale_{which}[dtype history]", h_history(which), replay_history, timeout, base_info={"which": which, "history": True})
+
+
 FX_FUNS = {
     "scale_fwd(2.5)": lambda U, sc: (lambda x: sc.scale_fwd(x, 2.5)), "scale_fwd(-0.75)": lambda U, sc: (lambda x: sc.scale_fwd(x, -0.75)),
     "scale_fwd(0)": lambda U, sc: (lambda x: sc.scale_fwd(x, 0.0)), "scale_bwd(2.5)": lambda U, sc: (lambda x: sc.scale_bwd(x, 2.5)),
@@ -133,6 +197,7 @@ def run(rep: Report, only: str = "") -> None:
             for dt in DTS:
                 tasks.append((task_primitive, (which, rank, dt, timeout)))
     tasks += [(task_fx, (n,)) for n in FX_FUNS]
+    tasks += [(task_history, (w, timeout)) for w in ("fwd", "bwd")]
     if only:
         tasks = [t for t in tasks if only in repr(t[1])]
     rep.extend(run_tasks(tasks))
@@ -140,6 +205,8 @@ def run(rep: Report, only: str = "") -> None:
     common_meta(rep)
     rep.bounds["fx"] = ("auxiliary obligation (the only decidable fragment of C20, not claimed as C20): torch.fx.symbolic_trace of scale_fwd/scale_bwd/gelu/silu/dropout/"
                         "residual ops, interpreted symbolically, reproduces the eager forward value for all data and shapes")
+    rep.bounds["dtype history"] = ("scale_fwd / scale_bwd with the concrete factor 0.3 applied, in one process, to int64, bfloat16, float16, float32, float64 tensors in that order: "
+                                   "exact factor per call + no scalar tensor of a dtype that cannot hold the factor to the precision of the tensor it multiplies")
     rep.bounds["primitives"] = "scale_fwd/scale_bwd with a symbolic real factor in [-1000, 1000] (0 and negatives included), ranks 0-3, four dtypes"
     rep.sample({"harness": "linear[rank=2,bias=True,constraint=None,...]", "obligation": "grad[w] = a * reference gradient",
                 "meaning": "the library's weight gradient unifies with a * vjp[linear,1](x,w,b; G) for a free upstream gradient G; a > 0"})
@@ -149,6 +216,8 @@ def replay(data: Dict[str, Any]) -> Tuple[bool, str]:
     info = data.get("info") or {}
     if "fx" in info:
         return replay_fx(data["obligation"], data["model"], info)
+    if info.get("history"):
+        return replay_history(data["obligation"], data["model"], info)
     if "which" in info:
         return replay_primitive(data["obligation"], data["model"], info)
     return fo.replay_functional(data["obligation"], data["model"], info)
